@@ -1,4 +1,5 @@
 import ZkElGamal.Props.C05
+import ZkElGamal.Model.Range
 /-!
 # C20 — provers refuse witnesses that do not match the statement
 
@@ -142,5 +143,55 @@ theorem cap_at_cap_delta_free (Cm Cd Cc : G) (mx pct delta : ℕ) (rp rd rc : F)
   apply this.mpr
   simp only [not_not]
   exact ⟨h1, fun h => absurd h hcap, h4⟩
+
+end Zk.Props.C20
+
+namespace Zk.Props.C20
+open Zk Zk.Range
+variable {F G T : Type} [Field F] [AddCommGroup G] [Module F G] [DecidableEq G]
+  [PtCodec G] [ScCodec F] [PedGens G] [TranscriptOps T]
+
+/-- range-proof constructors: refused iff the bit lengths do not sum to the instruction width, or the
+    vector lengths differ, or there are more than eight commitments, or a commitment is the identity,
+    or a bit length is zero or above 64 -/
+theorem range_new_none_iff (gens : ℕ → List G × List G) (width : ℕ) (comms : List G) (amounts bls : List ℕ)
+    (opens : List F) (nz : Nonces F) :
+    Range.new T gens width comms amounts bls opens nz = none ↔
+      bls.sum ≠ width ∨
+      (comms.length > 8 ∨ comms.length ≠ amounts.length ∨ comms.length ≠ bls.length ∨ comms.length ≠ opens.length) ∨
+      (∃ V ∈ comms, V = 0) ∨ (∃ n ∈ bls, n = 0 ∨ n > 64) := by
+  unfold Range.new
+  by_cases h1 : bls.sum ≠ width
+  · simp [h1]
+  · by_cases h2 : comms.length > 8 ∨ comms.length ≠ amounts.length ∨ comms.length ≠ bls.length ∨
+        comms.length ≠ opens.length
+    · simp [h1, h2]
+    · by_cases h3 : ∃ V ∈ comms, V = 0
+      · have : (comms.any (· == 0)) = true := by
+          obtain ⟨V, hV, h0⟩ := h3; rw [List.any_eq_true]; exact ⟨V, hV, by simp [h0]⟩
+        simp only [h1, if_false, h2, this, if_true, true_iff]
+        exact Or.inr (Or.inr (Or.inl h3))
+      · have hn : ¬ (comms.any (· == 0)) = true := by
+          rw [List.any_eq_true]; rintro ⟨V, hV, h0⟩; exact h3 ⟨V, hV, by simpa using h0⟩
+        by_cases h4 : ∃ n ∈ bls, n = 0 ∨ n > 64
+        · simp only [h1, if_false, h2, hn, Bool.false_eq_true, true_iff]
+          have : (bls.any fun n => decide (n = 0 ∨ n > 64)) = true := by
+            obtain ⟨n, hn', hb⟩ := h4; rw [List.any_eq_true]; exact ⟨n, hn', by simpa using hb⟩
+          constructor
+          · intro _; exact Or.inr (Or.inr (Or.inr h4))
+          · intro _; split <;> simp_all
+        · have h5 : ¬ (bls.any fun n => decide (n = 0 ∨ n > 64)) = true := by
+            rw [List.any_eq_true]; rintro ⟨n, hn', hb⟩; exact h4 ⟨n, hn', by simpa using hb⟩
+          have h6 : ¬ (bls.any (· > 255)) = true := by
+            rw [List.any_eq_true]; rintro ⟨n, hn', hb⟩
+            apply h4; refine ⟨n, hn', Or.inr ?_⟩
+            have : n > 255 := by simpa using hb
+            omega
+          simp only [h1, if_false, h2, hn, Bool.false_eq_true, h6, h5, reduceCtorEq, false_iff]
+          rintro (hf | hf | hf | hf)
+          · exact hf
+          · exact hf
+          · exact h3 hf
+          · exact h4 hf
 
 end Zk.Props.C20
